@@ -97,6 +97,16 @@ class C07Oracle(Oracle):
         self.peer.crashed = True
         if self.peer.timer_ev is not None:
             self.peer.timer_ev.cancelled = True
+        # let everything the real peer still has in flight arrive before the state is snapshotted
+        self.total = 1
+        self.last_at = sim.k.now + 1.0
+        sim.k.after(1.0, self.begin2, tag="app")
+
+    def begin2(self):
+        sim = self.sim
+        if self.target.terminated or self.target.conn._state.name != "CONNECTED":
+            self.total = 0
+            return
         side = "client" if self.target.is_client else "server"
         cfg = sim.cfg
         self.max_data = cfg[side + "_max_data"]
@@ -126,7 +136,7 @@ class C07Oracle(Oracle):
 
     # -------------------------------------------- the target's own advertisements
     def on_datagram_sent(self, ep, dgram):
-        if not self.started or self.total == 0 or ep is not self.target:
+        if not self.started or self.total == 0 or ep is not self.target or not hasattr(self, "streams"):
             return
         for p in dgram.meta or []:
             if p.opaque:
